@@ -518,6 +518,9 @@ pub struct Constructed<'a, S: 'a> {
 
     /// The start position of the value in the source.
     start: Pos,
+
+    /// The size of the end-of-contents marker once it has been read.
+    eoc_len: usize,
 }
 
 /// # General Management
@@ -529,7 +532,7 @@ impl<'a, S: Source + 'a> Constructed<'a, S> {
         state: State,
         mode: Mode
     ) -> Self {
-        Constructed { start: source.pos(), source, state, mode }
+        Constructed { start: source.pos(), source, state, mode, eoc_len: 0 }
     }
 
     /// Decode a source as constructed content.
@@ -657,6 +660,7 @@ impl<'a, S: Source + 'a> Constructed<'a, S> {
         if self.is_exhausted() {
             return Ok(None)
         }
+        let header = self.source.pos();
         let (tag, constructed) = if let Some(expected) = expected {
             (
                 expected,
@@ -687,6 +691,7 @@ impl<'a, S: Source + 'a> Constructed<'a, S> {
                     ))
                 }
                 self.state = State::Done;
+                self.eoc_len = self.source.pos() - header;
                 return Ok(None)
             }
             else {
@@ -1054,6 +1059,7 @@ impl<'a, S: Source + 'a> Constructed<'a, S> {
     {
         let limit = self.source.limit();
         let start = self.source.pos();
+        let state = self.state;
         let mut source = LimitedSource::new(CaptureSource::new(self.source));
         source.set_limit(limit);
         {
@@ -1062,10 +1068,15 @@ impl<'a, S: Source + 'a> Constructed<'a, S> {
             );
             op(&mut constructed)?;
             self.state = constructed.state;
+            self.eoc_len = constructed.eoc_len;
         }
-        Ok(Captured::new(
-            source.unwrap().into_bytes(), self.mode, start,
-        ))
+        let mut bytes = source.unwrap().into_bytes();
+        if self.state != state {
+            // The closure has read the end-of-contents marker of this
+            // value. It is not part of the values advanced over.
+            bytes.truncate(bytes.len() - self.eoc_len);
+        }
+        Ok(Captured::new(bytes, self.mode, start))
     }
 
     /// Captures one value for later processing
@@ -1106,6 +1117,10 @@ impl<'a, S: Source + 'a> Constructed<'a, S> {
         // indefinite values, we keep `None`.
         let mut stack = SmallVec::<[Option<Option<usize>>; 4]>::new();
 
+        // The position of the first header. If this turns out to be the
+        // end-of-contents marker, we need to know its size.
+        let header = self.source.pos();
+
         loop {
             // Get a the ‘header’ of a value. The very first header may be
             // missing if we are at the end of the top level.
@@ -1139,6 +1154,7 @@ impl<'a, S: Source + 'a> Constructed<'a, S> {
                             // return.
                             if self.state == State::Indefinite {
                                 self.state = State::Done;
+                                self.eoc_len = self.source.pos() - header;
                                 return Ok(None)
                             }
                             else {
